@@ -24,7 +24,7 @@ def run_case(case, ci):
             tree = ast.parse(op["src"])
             node = tree
             if op["kind"] == "function":
-                node = next(n for n in tree.body if isinstance(n, ast.FunctionDef))
+                node = next(n for n in tree.body if isinstance(n, (ast.FunctionDef, ast.AsyncFunctionDef)))
             before = set(T.ast_node_by_id)
             rw = t.make_ast_rewriter(fname)
             rw.gc_bookkeeping = bool(case.get("gc", True))
